@@ -6,6 +6,8 @@ Spec: specs/TracingLabels/TracingLabels.tla (one action per public call: span!/r
    decomposition PreMergeOK (state invariant) + EnhanceOK (ASSUME over all stored maps) in the larger ones.
 2. spec -> impl: TLC-generated programs (SimTracingLabels: scripted exhaustive enumerations + random
    simulation) executed by harness c17 on the real MetricsLayer / TracingContextLayer, keys compared.
+1b. TLC exhaustive (TracingLabelsConc): emission vs record() on one shared span at atomic-step granularity;
+   the late-stamped per-thread cache witness must be rejected.
 3. impl -> spec: seeded random programs (1..3 threads, all filters, all value types) recorded as ndjson and
    validated by TraceTracingLabels (property invariants evaluated on every delivered key)."""
 import json, os
@@ -45,6 +47,16 @@ def sim_cfg(name, spec, inv, **kw):
     return os.path.basename(p)
 
 
+def conc_cfg(name, **kw):
+    p = os.path.join(vlib.SPECS, SPEC, "gen_%s.cfg" % name)
+    with open(p, "w") as f:
+        f.write("SPECIFICATION Spec\nCONSTANTS\n")
+        for k, v in kw.items():
+            f.write(" %s = %s\n" % (k, _set(v) if isinstance(v, list) else v))
+        f.write("INVARIANTS TypeOK RecordVisible NoFuture\nCHECK_DEADLOCK FALSE\n")
+    return os.path.basename(p)
+
+
 def mc_configs(thorough):
     """(name, invariants, constants).  'direct' configurations check AllEmitsOK itself in every state."""
     cfgs = [
@@ -71,6 +83,8 @@ def run(chk):
         "spans stay open for the whole program (closing a span and span-id reuse are outside the model)",
         "a metric's own label names are distinct (precondition stated by the property)",
         "delivered labels are compared as a bag of (name, value); exact order only where the key must be untouched",
+        "concurrent histories: one recorder thread per shared span (records totally ordered); emissions are checked "
+        "against regular-register semantics only (returned-before-start must be visible, overlapping may be either)",
         "field values are identified by the label string they must turn into (Rust's own Display/Debug formatting)",
     ]
     # ---- 1. exhaustive model checking
@@ -81,6 +95,24 @@ def run(chk):
             return
         chk.log("TLC %s: %d distinct states, %d generated, depth %d, %.0fs [%s]"
                 % (name, r["distinct"], r["generated"], r["depth"], r["wall"], inv))
+
+    # ---- 1b. two threads sharing one span (TracingLabelsConc): emission vs record at atomic-step granularity
+    conc = [("conc_as_written", dict(Cache="FALSE", CacheStampedLate="FALSE"), {"EStore", "RBump"}),
+            ("conc_cache_stamped_early", dict(Cache="TRUE", CacheStampedLate="FALSE"), set())]
+    big = dict(Emitters=[1, 2], NEmits=3, NRecs=3) if thorough else dict(Emitters=[1, 2], NEmits=2, NRecs=2)
+    for name, kw, exempt in conc:
+        kw = dict(kw, **big)
+        cfg = conc_cfg(name, **kw)
+        r = vlib.tlc_mc(SPEC, "TracingLabelsConc", cfg, workers=4, timeout=900, tag=name)
+        if not chk.expect_mc_ok(r, "TracingLabelsConc/" + name, vacuity_exempt=exempt):
+            return
+        chk.log("TLC %s: %d distinct states, depth %d, %.0fs" % (name, r["distinct"], r["depth"], r["wall"]))
+    # witness: a per-thread cache stamped with the epoch read at STORE time must be rejected by the model
+    cfg = conc_cfg("conc_wit_stamped_late", Cache="TRUE", CacheStampedLate="TRUE", Emitters=[1], NEmits=2, NRecs=1)
+    r = vlib.tlc_mc(SPEC, "TracingLabelsConc", cfg, workers=4, timeout=600, tag="conc_wit", coverage=False)
+    if r["invariant"] != "RecordVisible":
+        chk.tool_error("model no longer rejects the late-stamped label cache (witness lost)", r["out"][-2000:])
+    chk.notes["cache_stamped_late_witness"] = "CacheStampedLate=TRUE violates RecordVisible at depth %d" % r["depth"]
 
     # ---- 2. harness
     ok, out, wall = vlib.cargo_build("c17")
@@ -104,6 +136,22 @@ def run(chk):
         chk.log("panics in the code under test:", summ["panics"])
     chk.log("recorded %d random programs (%d emissions, %d with span labels), validated"
             % (summ["programs"], summ["emits"], summ["emits_enhanced"]))
+
+    # ---- 3b. threads sharing one span: ticketed histories (deterministic linger scenarios + free-running rounds)
+    tr3 = chk.path("conc.ndjson")
+    cargs = ["conc", "--linger", 40 if thorough else 12, "--free", 24 if thorough else 6, "--rounds", 1000 if thorough else 500,
+             "--out", tr3]
+    rc, out, summ3 = vlib.harness("c17", cargs, env=env, timeout=900)
+    if rc != 0 or not summ3:
+        chk.tool_error("c17 conc failed", out)
+    chk.notes["conc"] = summ3
+    if summ3.get("hangs", 0):
+        chk.tool_error("c17 conc: a scenario did not finish (barrier deadline)", out)
+    n3 = vlib.validate_concat(chk, SPEC, "TraceTracingLabels", tcfg, tr3, "concurrent record/emit histories", timeout=1800)
+    chk.cov["traces_validated_against_impl"] += n3
+    chk.cov["distinct_nontrivial"] += summ3.get("emissions_overlapping_a_record", 0)
+    chk.log("concurrent histories: %d (%d emissions, %d overlapping a record, %d after a record returned), validated"
+            % (summ3["histories"], summ3["emissions"], summ3["emissions_overlapping_a_record"], summ3["emissions_after_record_returned"]))
 
     # ---- 4. spec -> impl: programs generated by TLC
     progs = chk.path("programs.ndjson")
@@ -194,6 +242,18 @@ def replay(chk, path):
     ok, out, wall = vlib.cargo_build("c17")
     if not ok:
         chk.tool_error("harness build failed", out)
+    if '"ev":"hist"' in open(path).read():
+        # a concurrent history cannot be re-executed step by step: run the concurrent stage again on the current
+        # code (the linger scenarios are deterministic for a seed) and let TLC decide on the new recording
+        tr = chk.path("rerun_conc.ndjson")
+        rc, out, summ = vlib.harness("c17", ["conc", "--linger", 24, "--free", 8, "--rounds", 500, "--out", tr],
+                                     env={"VERIF_SEED": str(chk.seed)}, timeout=900)
+        if rc != 0 or not summ:
+            chk.tool_error("c17 conc failed", out)
+        n = vlib.validate_concat(chk, SPEC, "TraceTracingLabels", "TraceTracingLabels.cfg", tr, "concurrent histories (re-run)")
+        chk.cov["traces_validated_against_impl"] += n
+        chk.notes["rerun_conc"] = summ
+        return
     tr = chk.path("rerun.ndjson")
     rc, out, summ = vlib.harness("c17", ["rerun", "--in", path, "--out", tr], env={"VERIF_SEED": str(chk.seed)})
     if rc != 0 or not summ:
